@@ -62,6 +62,8 @@ def run(ctx):
     r = ctx.tlc("MC_JobProtocol", cfg="MC_C12.cfg", workers=8, coverage=True, timeout=1500)
     ctx.require_coverage(r, ["Crash", "CrashEmpty", "StaleBreak", "Acquire", "CheckHit", "CheckMiss"])
     ctx.tlc("MC_JobProtocol", cfg="MC_C12_live.cfg", workers=4, timeout=1500)
+    if ctx.thorough:   # crashes combined with raising bodies and rerun submissions: 8.47 M distinct states, ~1 min
+        ctx.tlc("MC_JobProtocol", cfg="MC_C12_deep.cfg", workers=12, timeout=1500)
     specs = []
     for pt in OK_POINTS:
         specs.append({"kind": "seq", "task": "Work", "init": {"root": "absent"}, "crash_point": pt, "mode": "ok",
